@@ -129,6 +129,7 @@ class VLoop(base_events.BaseEventLoop):
         self._ntasks = 0
         self.tasks = []
         self.quiescent_cb = None
+        self.iteration_cb = None
         self.on_cancel_request = None
         self.on_task_created = None
         self.default_tkey = 0
@@ -137,6 +138,12 @@ class VLoop(base_events.BaseEventLoop):
         self.set_exception_handler(self._exc_handler)
 
     # -- BaseEventLoop plumbing
+    def _run_once(self):
+        cb = self.iteration_cb
+        if cb is not None:
+            cb()                # between two batches of callbacks: a consistent point
+        super()._run_once()
+
     def _process_events(self, event_list):
         pass
 
